@@ -397,6 +397,22 @@ func runOneBlockOp(o *Out, ws []string) {
 		case "rt":
 			b := &pbbstream.Block{Number: u(ws[1]), Id: string(unhx(ws[2])), ParentId: string(unhx(ws[3])), LibNum: u(ws[4])}
 			return showParsed(bstream.ParseFilename(bstream.BlockFileName(b)))
+		case "mfetch":
+			// FetchBlockFromMergedBlocksStore(num) over one merged bundle: mfetch <num> <base> <id:parent:num:lib,…>
+			store := dstore.NewMockStore(nil)
+			bu := parseBundleLine([]string{"bundle", ws[2], ws[3]})
+			store.SetFile(fmt.Sprintf("%010d", bu.base), bundleBytes(bu.blocks))
+			blk, err := bstream.FetchBlockFromMergedBlocksStore(context.Background(), u(ws[1]), store)
+			if errors.Is(err, dstore.ErrNotFound) {
+				return "notfound"
+			}
+			if err != nil {
+				return "err"
+			}
+			if blk == nil {
+				return "nilblock"
+			}
+			return fmt.Sprintf("found %s %d", tok(blk.Id), blk.Number)
 		case "fetch":
 			store := dstore.NewMockStore(nil)
 			if ws[3] != "-" {
@@ -435,7 +451,7 @@ func suiteOneBlock(o *Out, r *Rng, n int, tier string) {
 		for j, k := 0, 1+r.Intn(4); j < k; j++ {
 			num, lib := r.Height(), r.Height()
 			id, prev := genNameID(r), genNameID(r)
-			switch r.Intn(7) {
+			switch r.Intn(8) {
 			case 0, 1:
 				o.Stat("oneblock.op.rt", 1)
 				if num >= 1<<32 || lib >= 1<<32 {
@@ -473,6 +489,29 @@ func suiteOneBlock(o *Out, r *Rng, n int, tier string) {
 					name = strings.Repeat("-", r.Intn(7))
 				}
 				runOneBlockOp(o, []string{"parse", hx([]byte(name))})
+			case 7:
+				// a block by number out of a merged bundle whose chain may skip heights
+				o.Stat("oneblock.op.mfetch", 1)
+				base := uint64(100 * r.Intn(3))
+				var parts []string
+				n := base + uint64(r.Intn(3))
+				var nums []uint64
+				prev := fmt.Sprintf("%dz", n)
+				for t, m := 0, 2+r.Intn(8); t < m && n < base+100; t++ {
+					id := fmt.Sprintf("%da", n)
+					parts = append(parts, fmt.Sprintf("%s:%s:%d:%d", id, prev, n, base))
+					nums = append(nums, n)
+					prev = id
+					n += 1 + uint64([]int{0, 0, 0, 1, 2, 5}[r.Intn(6)])
+				}
+				q := nums[r.Intn(len(nums))]
+				if r.Intn(2) == 0 {
+					q = nums[0] + uint64(r.Intn(int(nums[len(nums)-1]-nums[0])+2)) // possibly a skipped height, or just past the end
+				}
+				if q >= base+100 {
+					q = base + 99
+				}
+				runOneBlockOp(o, []string{"mfetch", fmt.Sprint(q), fmt.Sprint(base), strings.Join(parts, ",")})
 			default:
 				o.Stat("oneblock.op.fetch", 1)
 				base := uint64(r.Intn(50))
